@@ -177,6 +177,11 @@ def shape_case(rng, case):
         kinds.append("regionsaver")
         case["observer_timeouts"].append(rng.choice((0.0005, 0.2)))
     case["observers"] = kinds
+    r = rng.random()
+    if r < 0.3:
+        # threads started by hand in another order than start_all() uses: tokenizer before its observers, the saver's writer
+        # thread after the tokenizer
+        case["start_order"] = ("tokenizer-first", "saver-last", "tokenizer-first+saver-last")[int(r * 10)]
     return case
 
 
